@@ -91,15 +91,38 @@ Section Demography.
       [ginc a x] = scipy.special.gammainc(a, x) (regularised lower incomplete gamma; the code
       evaluates it at [rate * inf] for the last epoch: that value is the constant 1 here),
       [gam] = scipy.special.gamma, [powr r x] = r ** x,
-      [cnorm shape rate] = exp(shape * log(rate) - loggamma(shape)). *)
+      [cnorm shape rate] = exp(shape * log(rate) - loggamma(shape)), [sqs x] = x ** 2 (scalar). *)
   Section Gamma.
     Variable ginc : T -> T -> T.
     Variable gam : T -> T.
     Variable powr : T -> T -> T.
     Variable cnorm : T -> T -> T.
+    (** [mn ** 2] on a numpy float64 SCALAR goes through libm's pow, which is not always
+        the correctly rounded product [mn * mn] (array ** 2 is: numpy squares elementwise) *)
+    Variable sqs : T -> T.
 
-    Definition sum1 (l : list T) : T :=            (* np.sum of fewer than 8 terms *)
+    (** [np.sum] of a contiguous float64 vector of at most 128 terms (numpy's pairwise
+        summation): fewer than 8 terms left to right; otherwise 8 running sums over blocks
+        of 8, combined as ((r0+r1)+(r2+r3))+((r4+r5)+(r6+r7)), then the remaining terms *)
+    Definition sum1 (l : list T) : T :=
       match l with [] => zero N | x :: r => fold_left (add N) r x end.
+
+    Fixpoint blocks8 (fuel : nat) (r l : list T) : list T * list T :=
+      match fuel with
+      | O => (r, l)
+      | S f => if 8 <=? length l
+               then blocks8 f (map (fun ab : T * T => add N (fst ab) (snd ab)) (combine r (firstn 8 l))) (skipn 8 l)
+               else (r, l)
+      end.
+
+    Definition np_sum (l : list T) : T :=
+      if length l <? 8 then sum1 l
+      else match blocks8 (length l) (firstn 8 l) (skipn 8 l) with
+           | ([r0; r1; r2; r3; r4; r5; r6; r7], rest) =>
+               fold_left (add N) rest
+                 (add N (add N (add N r0 r1) (add N r2 r3)) (add N (add N r4 r5) (add N r6 r7)))
+           | _ => zero N
+           end.
 
     Definition map2 (f : T -> T -> T) (a b : list T) : list T :=
       map (fun ab : T * T => f (fst ab) (snd ab)) (combine a b).
@@ -123,12 +146,12 @@ Section Demography.
         let mn_coef_1 := h_ps h in
         let va_coef_1 := map (fun x => mul N x (two N)) (map2 (mul N) mn_coef_0 mn_coef_1) in
         let va_coef_2 := map (fun x => mul N x x) mn_coef_1 in
-        let mn := sum1 (map2 (add N) (map2 (mul N) mn_coef_1 cdf_1) (map2 (mul N) mn_coef_0 cdf_0)) in
-        let va0 := sum1 (map2 (add N) (map2 (add N) (map2 (mul N) va_coef_2 cdf_2)
+        let mn := np_sum (map2 (add N) (map2 (mul N) mn_coef_1 cdf_1) (map2 (mul N) mn_coef_0 cdf_0)) in
+        let va0 := np_sum (map2 (add N) (map2 (add N) (map2 (mul N) va_coef_2 cdf_2)
                                                     (map2 (mul N) va_coef_1 cdf_1))
                                       (map2 (mul N) va_coef_0 cdf_0)) in
-        let va := sub N va0 (mul N mn mn) in
-        Some (div N (mul N mn mn) va, div N mn va)
+        let va := sub N va0 (sqs mn) in                       (* va -= mn**2 *)
+        Some (div N (sqs mn) va, div N mn va)
       else None.
   End Gamma.
 End Demography.
